@@ -129,6 +129,10 @@ def jobs(tier):
         for st in range(4):
             nj("persist.dereg.loop.st%d" % st, FL1=P, NREG=1, DEREG=1, ST1=st)
             nj("persist.dereg.idle.st%d" % st, FL1=P, NREG=1, DEREG=1, ST1=st, LOOPING=0)
+    for q in (1, 0):
+        js.append(l2_job("C15.persist.afterquit%d" % q, "l2/c15_persist_quit.c", defines={"QUIT": q},
+                         symbolic=["quit code (uint8)", "errno left by callbacks (int)"],
+                         bounds="deregistration of a persistent module from a handler, quit %s" % ("requested first" if q else "not requested"), unwind=13))
     return js
 
 
